@@ -49,6 +49,27 @@ theorem setAt_map_same (f : γ → δ) : ∀ (l : List γ) (k : Nat) (x : γ) (d
     simp only [setAt, List.map_cons, List.cons.injEq, true_and]
     exact setAt_map_same f ys k x dflt (fun hk => by simpa using h (by simpa using hk))
 
+theorem getD_length_sub_one : ∀ (s : List Nat), s.getD (s.length - 1) 0 = s.getLast?.getD 0
+  | [] => rfl
+  | [_] => rfl
+  | _ :: b :: t => by
+    have := getD_length_sub_one (b :: t)
+    simp only [List.length_cons, Nat.add_sub_cancel, List.getLast?_cons_cons] at this ⊢
+    simpa using this
+
+/-- splitting the last axis n = m·k into (m, k) keeps the number of elements -/
+theorem size_split_last : ∀ (s : List Nat) (m k : Nat), s ≠ [] → s.getLast?.getD 0 = m * k →
+    size (setAt s (s.length - 1) m ++ [k]) = size s
+  | [], _, _, h, _ => absurd rfl h
+  | [n], m, k, _, hl => by
+    simp only [List.getLast?_singleton, Option.getD_some] at hl
+    simp [setAt, size, hl]
+  | a :: b :: t, m, k, _, hl => by
+    have ih := size_split_last (b :: t) m k (by simp) (by simpa using hl)
+    simp only [List.length_cons, Nat.add_sub_cancel] at ih ⊢
+    simp only [setAt, List.cons_append, size] at ih ⊢
+    rw [ih]
+
 theorem eraseAt_append_singleton : ∀ (l : List γ) (x : γ), eraseAt (l ++ [x]) l.length = l
   | [], _ => rfl
   | y :: ys, x => by simp [eraseAt, eraseAt_append_singleton ys x]
@@ -260,6 +281,96 @@ theorem dedup_append_of_perm {x dims : List String} (hx : x.Nodup) (hd : dims.No
   rw [hr, List.length_append, ← hp.length_eq] at hl
   have : r = [] := List.length_eq_zero_iff.1 (by omega)
   rw [hr, this, List.append_nil]
+
+theorem reorder_consistent' {d d' : Data κ α} {ds : List String} (h : d.Consistent)
+    (hr : d.reorder ds = .ok d') : d'.Consistent := by
+  obtain ⟨rfl, _, hsub⟩ := reorder_eq_permuted hr
+  exact (permuted_spec h (dedup_append_perm h.1 hsub)).1
+
+theorem concatenate_consistent {d b d' : Data κ α} {dim : String} (h : d.Consistent) (hb : b.Consistent)
+    (hr : d.concatenate b dim = .ok d') : d'.Consistent := by
+  unfold concatenate at hr
+  split at hr
+  · cases hr
+  · split at hr
+    · cases hr
+    · rename_i _ hdm
+      have hdm : dim ∈ d.dims := by simpa using hdm
+      simp only [bind, Except.bind] at hr
+      cases hq : b.reorder d.dims with
+      | error e => rw [hq] at hr; cases hr
+      | ok b' =>
+        rw [hq] at hr
+        simp only at hr
+        split at hr
+        · cases hr
+        · simp only [Except.ok.injEq] at hr
+          subst hr
+          have hb' := reorder_consistent' hb hq
+          obtain ⟨hbd, _, _⟩ := reorder_eq_permuted hq
+          obtain ⟨r, hpre⟩ := dedup_append_prefix b.dims h.1
+          have hbdims : b'.dims = d.dims ++ r := by rw [hbd]; exact hpre
+          have hidx : b'.index dim = d.index dim := by
+            unfold index; rw [hbdims, List.idxOf_append_of_mem hdm]
+          refine consistent_setAxis h _ _ _ ?_ (Arr.ofFn_WF _ _)
+          simp only [concatAxis, Arr.ofFn_shape, List.length_append]
+          rw [coord_length h, coord_length hb']
+          unfold ext
+          rw [hidx]
+
+theorem split_consistent {d d' : Data κ α} {dim new : String} {c : List κ} (h : d.Consistent)
+    (hr : d.split dim new c = .ok d') : d'.Consistent := by
+  unfold split at hr
+  split at hr
+  · cases hr
+  · rename_i hdm
+    have hdm : dim ∈ d.dims := by simpa using hdm
+    split at hr
+    · cases hr
+    · rename_i hnew
+      split at hr
+      · cases hr
+      · simp only [bind, Except.bind] at hr
+        cases hq : d.reorder (d.dims.filter (· != dim) ++ [dim]) with
+        | error e => rw [hq] at hr; cases hr
+        | ok d1 =>
+          rw [hq] at hr
+          simp only at hr
+          split at hr
+          · cases hr
+          · rename_i hmod
+            simp only [Except.ok.injEq] at hr
+            subst hr
+            have h1 := reorder_consistent' h hq
+            obtain ⟨hd1, _, hsub⟩ := reorder_eq_permuted hq
+            have hperm : d1.dims.Perm d.dims := by rw [hd1]; exact dedup_append_perm h.1 hsub
+            have hne : d1.dims ≠ [] := by
+              intro he; have := hperm.mem_iff.2 hdm; rw [he] at this; cases this
+            have hnew1 : new ∉ d1.dims := fun hm => hnew (hperm.mem_iff.1 hm)
+            have hlenpos : 0 < d1.dims.length := List.length_pos_iff.2 hne
+            have hshape_ne : d1.values.shape ≠ [] := by
+              intro he
+              have := h1.shape_len
+              rw [he] at this
+              simp at this
+              omega
+            have hmod : d1.values.shape.getLast?.getD 0 % c.length = 0 := by simpa using hmod
+            have hmk : d1.values.shape.getLast?.getD 0 = d1.values.shape.getLast?.getD 0 / c.length * c.length :=
+              (Nat.div_mul_cancel (Nat.dvd_of_mod_eq_zero hmod)).symm
+            refine ⟨?_, by simp [h1.2.1], ?_, ?_⟩
+            · exact List.nodup_append.2 ⟨h1.1, by simp, by
+                intro a ha b hb; simp at hb; subst hb; rintro rfl; exact hnew1 ha⟩
+            · simp only [reshapeC, List.map_append, List.map_cons, List.map_nil, setAt_map_length, List.length_take]
+              congr 1
+              rw [← h1.2.2.1]
+              congr 1
+              have hlast : (d1.coords.getD (d1.dims.length - 1) []).length = d1.values.shape.getLast?.getD 0 := by
+                rw [← getD_map_length, ← h1.2.2.1, ← h1.shape_len, getD_length_sub_one]
+              rw [hlast]
+              exact (Nat.min_eq_left (Nat.div_le_self _ _)).symm
+            · simp only [Arr.WF, reshapeC]
+              rw [h1.2.2.2, ← h1.shape_len]
+              exact (size_split_last _ _ _ hshape_ne hmk).symm
 
 /-- joint reduction over several names: exactly those names disappear, the rest keeps its order;
     history, attributes untouched -/
